@@ -28,6 +28,9 @@ def plan(tier, ctx):
     j += fvm.config('C02', 'pop2_2thieves', 'deque.c', 3, 5, 'sc', srcs=src, defines=['PROG_POP2', 'THIEF2', 'NSTEAL=1'], spec=S,
                     bounds='2 elements; owner pop,pop; two thieves one steal each')
     if tier == 'thorough':
+        G2 = dict(S, pools=[['^wsd_.*#malloc', 1, 2, 128]])
+        j += fvm.config('C02', 'grow2_push3', 'deque.c', 2, 6, 'sc', srcs=src, defines=['PROG_PUSH3', 'INIT=2', 'NSTEAL=1'], spec=G2,
+                        bounds='2 elements in a 2-slot array; owner push,push,push (array grows 2->4->8: two generations retired); thief one steal', timeout=1500, required=False)
         j += fvm.config('C02', 'pop2_2thieves', 'deque.c', 3, 5, 'tso', srcs=src, defines=['PROG_POP2', 'THIEF2', 'NSTEAL=1'], spec=S,
                         bounds='2 elements; two thieves; x86-TSO', timeout=1200)
         for mm in ('sc', 'tso'):
